@@ -364,6 +364,8 @@ fn gen_history(ctx: &mut Ctx, long: bool) -> History {
 
 pub fn run(ctx: &mut Ctx) {
     ctx.journal_every_case(true);
+    // every error value is also formatted with Display / Debug (a recursive impl aborts the process)
+    format_errors(true);
     // (ii) counter stress - deterministic, in both build profiles
     let mut runs: Vec<(&str, usize, u8)> = Vec::new();
     for n in [255usize, 256, 257, 65534, 65535, 65536, 65537, 65538, 65539, 65540, 131072, 200000] {
